@@ -282,9 +282,25 @@ def run_shard(ctx, prm):
             if rng.random() < 0.5:
                 passes.append(G.random_pass(rng))
             data, model = G.write_file(passes)
+        elif n == nbig or (ctx.tier != 'quick' and n % 97 == 0):
+            # more than ten log passes in one file (frame arrays must come back in file order, not in the order of their idents as text)
+            data, model = G.write_file([G.random_pass(rng, max_block=8, max_blocks=3) for _ in range(rng.choice([11, 12, 13, 21]))])
+        elif n % 9 == 0:
+            # the same magnitudes with both signs (a curve that swings about zero), within a channel and across passes
+            passes = []
+            for _ in range(rng.choice([1, 2])):
+                pm = G.random_pass(rng, unique_values=False)
+                for ch in pm.words:
+                    for i in range(1, len(ch), 2):
+                        w = ch[i - 1]
+                        ch[i] = bytes([w[0] ^ 0x80]) + w[1:]
+                passes.append(pm)
+            data, model = G.write_file(passes)
         else:
             data, model = G.random_file(rng)
         classes = ['passes=%d' % len(model.passes)]
+        if n % 9 == 0 and n > nbig:
+            classes.append('mirrored-signs')
         if any(4 * p.channels * max(p.block_frames or [0]) > 65536 for p in model.passes):
             classes.append('data-block>64KiB')
         nontrivial = False
